@@ -34,6 +34,10 @@ type pkgConf struct {
 	goStmts  bool
 	chanPts  bool
 	monitors []string // field names
+	// sortedMaps: `range x.f` over these (map-typed) fields iterates in
+	// sorted key order, so that executions do not depend on Go's randomised
+	// map iteration (the order is unspecified, so this is a legal behaviour)
+	sortedMaps []string
 }
 
 var shimAll = map[string]string{
@@ -45,12 +49,13 @@ var shimAll = map[string]string{
 
 var conf = map[string]pkgConf{
 	"group": {imports: shimAll, goStmts: true,
-		monitors: []string{"clients", "locked", "description", "history", "timestamp", "data", "groups", "configuration"}},
+		monitors:   []string{"clients", "locked", "description", "history", "timestamp", "data", "groups", "configuration"},
+		sortedMaps: []string{"clients", "groups"}},
 	"unbounded":   {imports: shimAll, chanPts: true, monitors: []string{"queue"}},
-	"token":       {imports: shimAll, monitors: []string{"tokens", "fileSize", "modTime"}},
+	"token":       {imports: shimAll, monitors: []string{"tokens", "fileSize", "modTime"}, sortedMaps: []string{"tokens"}},
 	"packetcache": {imports: shimAll, monitors: []string{"entries", "tail", "last", "lastValid", "cycle", "expected", "received", "totalExpected", "totalReceived", "keyframe", "keyframeValid", "seqno", "lengthAndMarker", "timestamp", "buf", "bitmap", "first", "valid"}},
 	"packetmap":   {imports: shimAll},
-	"rtpconn":     {imports: shimAll, goStmts: true},
+	"rtpconn":     {imports: shimAll, goStmts: true, sortedMaps: []string{"up", "down"}},
 	"diskwriter":  {imports: shimAll},
 	"webserver":   {imports: shimAll, goStmts: true},
 	"estimator":   {imports: shimAll},
@@ -407,8 +412,27 @@ func Rewrite(filename string, src []byte, pkg string, c pkgConf) ([]byte, bool, 
 		return found
 	}
 
+	sorted := map[string]bool{}
+	for _, m := range c.sortedMaps {
+		sorted[m] = true
+	}
+
 	ast.Inspect(f, func(n ast.Node) bool {
 		switch n := n.(type) {
+		case *ast.RangeStmt:
+			x := n.X
+			for {
+				if p, ok := x.(*ast.ParenExpr); ok {
+					x = p.X
+					continue
+				}
+				break
+			}
+			if sel, ok := x.(*ast.SelectorExpr); ok && sorted[sel.Sel.Name] {
+				needVrt = true
+				add(off(n.X.Pos()), 0, "vrt.SortedMap(")
+				add(off(n.X.End()), 0, ")")
+			}
 		case *ast.GoStmt:
 			if !c.goStmts {
 				return true
